@@ -70,6 +70,16 @@ Proof.
   exact (analyze_sound_any gen_basis (PosT U) (table_facts_inst U HU) s cfg k p sk pv v d acc c (engine_sinst_s s HS) HN
            (eval_facts_inst cfg U HE) (call_s_inst cfg U p HA) HR).
 Qed.
+
+(* C16 for these configurations: the state left by a call cancelled anywhere is an engine state, so later calls stay sound *)
+Theorem cancel_preserves_soundness_inst : forall s cfg k p sk r, engine_sinst s -> c_nonull cfg = true -> builtin_eval cfg -> ask_s cfg U p ->
+  analyze_cancel gen_basis cfg k s p = (sk, r) ->
+  forall cfg' k' p' sk' pv v d acc c, c_nonull cfg' = true -> builtin_eval cfg' -> ask_s cfg' U p' ->
+    analyze_cancel gen_basis cfg' k' sk p' = (sk', (pv, v, d, acc, c)) -> sound_verdict gen_basis p' v.
+Proof.
+  intros s cfg k p sk r HS HN HE HA HR cfg' k' p' sk' pv v d acc c HN' HE' HA' HR'.
+  exact (analyze_sound_any_inst sk cfg' k' p' sk' pv v d acc c (engsi_call s cfg k p sk r HS HN HE HA HR) HN' HE' HA' HR').
+Qed.
 End InstS.
 
 
